@@ -3,7 +3,7 @@
  * fresh parser; states are de-duplicated by a 128-bit hash of the EXACT canonical parser state
  * (hx_canon).  Every transition runs all monitors; every reached state is torn down (leak check).
  *
- *   --alphabet micro|macro   --depth N   --cfg <menu index>   --raw 0|1   --devdepth K   --ndev 1|2
+ *   --alphabet micro|macro|odd   --depth N   --cfg <menu index>   --raw 0|1   --devdepth K   --ndev 1|2
  */
 #include "hx.h"
 #include "gen.h"
@@ -36,6 +36,15 @@ static void alphabet_macro(void) {
     ES("HTTP/1.1 200 OK\r\nContent-Length: 2\r\n\r\n"); ES("HTTP/1.1 200 OK\r\nTransfer-Encoding: chunked\r\n\r\n"); ES("HTTP/1.1 200 OK\r\n\r\n");
     ES("HTTP/1.1 100 Continue\r\n\r\n"); ES("HTTP/1.1 101 Sw\r\n\r\n"); ES("HTTP/1.1 204 No\r\n\r\n"); ES("HTTP/1.1 404 NF\r\nContent-Length: 2\r\n\r\n");
     ES("HTTP/1.1 407 PA\r\nContent-Length: 0\r\n\r\n"); ES("ok"); ES("2\r\nok\r\n0\r\n\r\n"); ES("\x17\x03\x01\x00\x05world\n");
+}
+/* line-ending oddities and other shapes the coverage report showed unreached: a look-ahead over a line end only fires when both bytes are in one chunk */
+static void alphabet_odd(void) {
+    EQ("GET /a HTTP/1.1\r\n"); EQ("GET /a b HTTP/1.1\r\n"); EQ("POST /p HTTP/1.1\n"); EQ("Host: h\r\n"); EQ("Content-Length: 3\r\n"); EQ("Transfer-Encoding: chunked\n");
+    EQ("\r\n"); EQ("\n"); EQ("\r"); EQ("abc"); EQ("3\nabc\n"); EQ("0\n\n");
+    EQ("X-L: a\n\rX-M: b\r\n"); EQ("X-C: y\r\r\n"); EQ("X-N: n\n"); EQ(" X-F: v\r\n"); EQ("X-S : v\r\n");
+    ES("HTTP/1.1 200 OK\r\n"); ES("HTTP/1.1 200 OK\n"); ES("HTTP/1.1 100 Continue\n\n"); ES("Content-Length: 2\r\n"); ES("Transfer-Encoding: chunked\n");
+    ES("\r\n"); ES("\n"); ES("\r"); ES("ok"); ES("2\nok\n"); ES("0\n\n");
+    ES("X-L: a\n\rX-M: b\r\n"); ES("X-C: y\r\r\n"); ES("X-N: n\n"); ES(" X-F: v\r\n"); ES("\n\r\r\n\r\n"); ES("\r\r\n");
 }
 static void alphabet_common(void) {
     E(OP_QG, NULL, 3, "QG 3"); E(OP_SG, NULL, 2, "SG 2"); E(OP_CLOSE, NULL, 0, "CLOSE"); E(OP_QCLOSE, NULL, 0, "QCLOSE");
@@ -176,7 +185,7 @@ static int worker(int argc, char **argv) {
     if (BISIM) { if (hx_shard_i != 0) return 0; hx_shard_n = 1; }            /* the self-check needs every state expanded by the same process */
     cfg_menu(cfgi, &CFG);
     gx_deflate(&gz_ok, (const uint8_t *) "ok", 2, 0);
-    if (!strcmp(alpha, "micro")) alphabet_micro(CFG.field_limit_hard != 0); else alphabet_macro();
+    if (!strcmp(alpha, "micro")) alphabet_micro(CFG.field_limit_hard != 0); else if (!strcmp(alpha, "odd")) alphabet_odd(); else alphabet_macro();
     alphabet_common();
 
     /* levels 0..2 are computed by every worker (cheap), then level 2 is dealt out */
